@@ -112,8 +112,20 @@ def wrappers(rep, idx):
                 flat.append(a[2][0] if a[0] == 'call' and a[1] == ('name', 'flipped') and a[2] else a)
             if c.parse(f"self.{port}") in flat and want_inner_bus in flat:
                 hits.append(ln)
-        rep.check(bool(hits), "C01.3", site, f"{spec}: self.{port} is connected to the bus of the component whose map is published",
-                  f"no connect(m, self.{port}, {ir.show(want_inner_bus)}) (in either orientation)")
+        if hits:
+            rep.ok("C01.3", site, f"{spec}: self.{port} is connected to the bus of the component whose map is published", f"connect() at line {hits[0]}")
+        else:
+            # wired member by member?  then some driver assigns a member of the inner bus from the same member of the port
+            by_hand = [d_ for d_ in c.t.drivers
+                       if any(x == want_inner_bus or x == c.parse(f"self.{port}") for x in ir.walk(c.norm(d_.target))) and
+                       any(x == want_inner_bus or x == c.parse(f"self.{port}") for x in ir.walk(c.norm(d_.value)))]
+            if by_hand or getattr(c.t, "unsupported", None):
+                rep.unk("C01.3", site, f"{spec}: self.{port} is connected to the bus of the component whose map is published",
+                        f"no connect(); {len(by_hand)} assignment(s) wire members of self.{port} and {ir.show(want_inner_bus)} by hand, "
+                        "whose completeness the rule does not derive")
+            else:
+                rep.bad("C01.3", site, f"{spec}: self.{port} is connected to the bus of the component whose map is published",
+                        f"no connect(m, self.{port}, {ir.show(want_inner_bus)}) (in either orientation) and no assignment between the two")
         subs = [c.norm(v) for _, v, _, _ in c.t.submodules]
         rep.check(inner in subs, "C01.3", site, f"{spec}: that component is a submodule", f"submodules: {[ir.show(s) for s in subs][:5]}")
 
@@ -287,6 +299,11 @@ def window_patterns(rep, idx):
                 if k == -1 and 'addr_width' in ir.show(t):
                     subtr.add(t)
     allw = widths | shifts | subtr
+    if not allw or not bases:
+        # another way of producing the pattern (bit by bit, through a helper generator ...): nothing to compare
+        rep.unk("C01.7", site, "shift amount, don't-care count and constant-bit count all use the window's address width",
+                f"the pattern `{txt[:80]}` is not built from a shifted constant part and a run of '-': its agreement with the window's range is not derived")
+        return
     rep.check(allw == {W}, "C01.7", site, "shift amount, don't-care count and constant-bit count all use the window's address width",
               f"don't-care run {[ir.show(w) for w in widths]}, shift {[ir.show(s) for s in shifts]}, subtracted from addr_width {[ir.show(s) for s in subtr]}: "
               "they must be one expression or the pattern matches addresses the map does not assign to the window")
